@@ -4,6 +4,7 @@ package main
 // may modify. Used to havoc at loop headers and to check modifies clauses.
 
 import (
+	"os"
 	"fmt"
 	"go/types"
 	"strings"
@@ -91,6 +92,7 @@ func (ex *Exec) callModKeys(fr *frame, c *ssa.CallCommon, keys map[string]bool, 
 			ex.contractModKeys(fc, nil, c.Signature(), keys)
 			return
 		}
+		dbgStar(c, 1)
 		keys["*"] = true
 		return
 	}
@@ -108,12 +110,13 @@ func (ex *Exec) callModKeys(fr *frame, c *ssa.CallCommon, keys map[string]bool, 
 					return
 				}
 			}
-			// closure bound to a local: look for the MakeClosure stored in that local
-			if f := ex.closureOfLocal(c.Value); f != nil {
-				ex.funcModKeys(f, keys, seen)
-				return
-			}
 		}
+		// closure bound to a local (or to a captured local of the enclosing function): the MakeClosure stored there
+		if f := ex.closureOfLocal(c.Value); f != nil {
+			ex.funcModKeys(f, keys, seen)
+			return
+		}
+		dbgStar(c, 2)
 		keys["*"] = true
 		return
 	}
@@ -132,6 +135,17 @@ func (ex *Exec) callModKeys(fr *frame, c *ssa.CallCommon, keys map[string]bool, 
 	if _, ok := externalModelNames[name]; ok {
 		return
 	}
+	if (name == "sort.Slice" || name == "sort.SliceStable") && len(c.Args) == 2 {
+		// the permutation model (modelSortSlice): the cells of the slice; the closure's keys were added above
+		if mi, ok := c.Args[0].(*ssa.MakeInterface); ok {
+			if st, ok := mi.X.Type().Underlying().(*types.Slice); ok && !isStruct(st.Elem()) {
+				k := "A$" + elemKey(st.Elem())
+				u.keySort(k, arr2(sortOf(st.Elem())))
+				keys[k] = true
+				return
+			}
+		}
+	}
 	if strings.HasPrefix(name, "reflect.") || strings.HasPrefix(name, "(reflect.") {
 		// the reflect handle model writes the reflective field arrays only
 		ex.reflKeys()
@@ -145,7 +159,8 @@ func (ex *Exec) callModKeys(fr *frame, c *ssa.CallCommon, keys map[string]bool, 
 	if isPureExternal(strings.TrimPrefix(name, "(*")) || isPureExternal(name) {
 		return
 	}
-	keys["*"] = true
+	dbgStar(c, 3)
+		keys["*"] = true
 }
 
 var externalModelNames = map[string]bool{"strings.HasPrefix": true, "strings.Contains": true, "(go/token.Pos).IsValid": true, "strconv.Unquote": true, "strings.Trim": true}
@@ -412,5 +427,11 @@ func (ex *Exec) closureKeys(fr *frame, mc *ssa.MakeClosure, keys map[string]bool
 		if !resolved {
 			keys["*"] = true
 		}
+	}
+}
+
+func dbgStar(c *ssa.CallCommon, n int) {
+	if os.Getenv("GOVC_DEBUG_HAVOC") != "" {
+		fmt.Fprintf(os.Stderr, "modkeys * (%d) from call %s\n", n, c.String())
 	}
 }
